@@ -10,7 +10,8 @@ CONFIG = {
                GEN_RULE + " Op `evolve`: package P plus 1-4 append edits e (appendfield at the end of an object / oneof / inline object at any "
                "depth / nested object / request / response / topic message (also entity data, events, commands, summaries), appendoption "
                "at the end of a top-level / nested / inline enum or of the entity statuses, appenddecl of a new object / oneof / enum / "
-               "service / topic at the end of a file); the real compiler compiles P and e(P); every element of compile(P) — message, "
+               "service / topic at the end of a file; appended options may state a number, appended fields may be primary keys of a "
+               "hand-written KEYS object, appended inline objects may take the name of the object they are appended to); the real compiler compiles P and e(P); every element of compile(P) — message, "
                "field (number, type, label, proto3_optional, type name, JSON name, oneof index), enum value (number), service, method "
                "(input, output, http, annotations) — is looked up in compile(e(P)); result `ok changed=<k> <skeleton of e(P)>`. "
                "Oracle: k = 0. Non-trivial = edit that changed the compiled output; distinct by skeleton of e(P)."),
